@@ -221,7 +221,8 @@ pub struct FlowSetHeader {
 #[nom(ExtraArgs(parser: &mut IPFixParser, set_id: u16))]
 pub struct Data {
     #[nom(
-        PreExec = "let template = parser.templates.get(&set_id).cloned().unwrap_or_default();",
+        PreExec = "let no_template = Template::default();",
+        PreExec = "let template = parser.templates.get(&set_id).unwrap_or(&no_template);",
         ErrorIf = "template.get_fields().is_empty() ",
         Parse = "{ |i| FieldParser::parse::<Template>(i, template) }"
     )]
@@ -234,7 +235,8 @@ pub struct Data {
 #[nom(ExtraArgs(parser: &mut IPFixParser, set_id: u16))]
 pub struct OptionsData {
     #[nom(
-        PreExec = "let template = parser.options_templates.get(&set_id).cloned().unwrap_or_default();",
+        PreExec = "let no_template = OptionsTemplate::default();",
+        PreExec = "let template = parser.options_templates.get(&set_id).unwrap_or(&no_template);",
         ErrorIf = "template.get_fields().is_empty() ",
         Parse = "{ |i| FieldParser::parse::<OptionsTemplate>(i, template) }"
     )]
@@ -330,10 +332,10 @@ impl FieldParser {
     /// Takes a byte stream and a cached template.
     /// Fields get matched to static types.
     /// Returns BTree of IPFix Types & Fields or IResult Error.
-    fn parse<T: CommonTemplate>(
-        i: &[u8],
-        template: T,
-    ) -> IResult<&[u8], Vec<BTreeMap<usize, IPFixFieldPair>>> {
+    fn parse<'a, T: CommonTemplate>(
+        i: &'a [u8],
+        template: &T,
+    ) -> IResult<&'a [u8], Vec<BTreeMap<usize, IPFixFieldPair>>> {
         // If no fields there are no fields to parse, return an error.
         let mut fields = vec![];
         let mut remaining = i;
